@@ -50,10 +50,11 @@ impl<'a> Hist<'a> {
                 continue;
             }
             let cached_then = since.map(|s| p.step >= s.1).unwrap_or(false);
-            let mut later: Vec<String> = self.penalties[k + 1..].iter().map(|q| format!("{:?}", q.report)).collect();
-            later.sort();
-            later.dedup();
-            let still_remembered = later.len() + 1 < self.cfg.issue_cache_size;
+            // every report the stack accepted since takes a slot of the issue memory's FIFO, re-reports of the same issue
+            // included (and with equal timestamps the oldest of them evicts the entry): "certainly still remembered" means
+            // fewer reports since than slots
+            let later = self.penalties[k + 1..].len();
+            let still_remembered = later + 1 < self.cfg.issue_cache_size;
             if !(cached_then || (since.is_some() && still_remembered)) {
                 continue;
             }
@@ -123,7 +124,7 @@ impl<'a> Hist<'a> {
                 actives.push(a);
             }
         }
-        let kind = sim.idx(9);
+        let kind = sim.idx(10);
         let tag = sim.idx(3) as u8;
         let pick_route = |h: &Hist| -> usize {
             if !actives.is_empty() && sim.chance(2, 3) { actives[sim.idx(actives.len())] } else { sim.idx(h.routes.len()) }
@@ -150,6 +151,12 @@ impl<'a> Hist<'a> {
                 Report::FirstHop { ifid: self.routes[r].hops[0].eg }
             }
             7 => Report::ExtIfDown { asn: 0x999, ifid: 1 + sim.idx(3) as u16, tag },
+            9 => {
+                // another local AS of the same host reports a first-hop failure on an interface *number* that paths of
+                // this AS use too
+                let r = pick_route(self);
+                Report::FirstHopForeign { asn: 0x120, ifid: self.routes[r].hops[0].eg }
+            }
             _ => match self.penalties.last() {
                 Some(p) => {
                     sim.fault("report-duplicate");
@@ -176,10 +183,7 @@ impl<'a> Hist<'a> {
         let is_dup = earlier.is_some();
         let dup_certain = earlier
             .map(|k| {
-                let mut later: Vec<String> = self.penalties[k + 1..].iter().map(|q| format!("{:?}", q.report)).collect();
-                later.sort();
-                later.dedup();
-                later.len() + 1 < self.cfg.issue_cache_size
+                self.penalties[k + 1..].len() + 1 < self.cfg.issue_cache_size
             })
             .unwrap_or(false);
         let before: Vec<Option<(Option<usize>, Vec<(usize, u32)>)>> = pairs.iter().map(|p| self.view(*p)).collect();
@@ -268,6 +272,39 @@ impl<'a> Hist<'a> {
                     } else {
                         sim.probe("switched-away");
                     }
+                }
+            }
+        }
+        Ok(())
+    }
+
+    /// "A failure report that matches no path in use changes nothing": a cached path that no report of this history
+    /// concerns carries no penalty (its reliability score is exactly neutral).
+    pub fn check_unwarranted_penalties(&mut self) -> RunResult2 {
+        if self.prop != "C07" {
+            return Ok(());
+        }
+        for d in 0..self.n_dst {
+            let pair = self.pair(d);
+            let Some(w) = self.live_worker(pair) else { continue };
+            let Some((pr, _, actor)) = self.probes.lock().unwrap().get(&pair_key(pair)).cloned() else { continue };
+            if actor != Some(w) {
+                continue;
+            }
+            for (p, _, reliability) in &pr.cached {
+                let Some(r) = self.route_of_fp(&fp_str(p)) else { continue };
+                // every report ever handed to the stack counts here, also duplicates that were popped from the penalty
+                // list (`all_reports`)
+                if self.all_reports.iter().any(|rep| rep.concerns(&self.routes[r].hops)) {
+                    continue;
+                }
+                self.sim.probe("oracle-unwarranted-penalty");
+                if *reliability < -1e-4 {
+                    let reps: Vec<String> = self.all_reports.iter().map(|r| format!("{r:?}")).collect();
+                    return self.violate_pub(
+                        "C07/path-penalised-without-a-matching-report",
+                        format!("cached path r{r} ({}) carries a penalty ({reliability:.3}) although none of the reports of this history concerns it: {reps:?}", self.routes[r].describe()),
+                    );
                 }
             }
         }
